@@ -250,3 +250,32 @@ func genPocket(r *hx.Rng) desc {
 		}
 	}
 }
+
+// genHuge: 258-300 points on a 1000 x 1000 grid — more than 256 vertices, so that any 8-bit packing of a
+// vertex index, a 256-entry table or a uint8 counter in the implementation is exercised.  Admitted by the
+// faithful-run filter; judged by the certified checker only (no model run, no brute-force Delaunay, hence
+// no coverage verdict: classify is O(n^4)).
+func genHuge(r *hx.Rng) desc {
+	for {
+		n := r.Range(258, 300)
+		ps := fill(r, n, func(r *hx.Rng) P { return P{int64(r.Intn(1001)), int64(r.Intn(1001))} }, nil)
+		if len(ps) < 257 {
+			continue
+		}
+		q := make([]P, len(ps))
+		for i, j := range r.Perm(len(ps)) {
+			q[i] = ps[j]
+		}
+		x0, y0, _, _ := bbox(q)
+		d := desc{Wide: true, Gen: "huge"}
+		for _, p := range q {
+			d.Pts = append(d.Pts, [2]int64{p.x - x0, p.y - y0})
+		}
+		if r.Bool() {
+			d.Shift = r.Range(-20, 20)
+		}
+		if wideOK(d) {
+			return d
+		}
+	}
+}
